@@ -93,7 +93,8 @@ class C06(Prop):
         if tier == 'quick':
             return {'runs': 150, 'wall_s': 75, 'per_run_timeout': 200,
                     'shrink_s': 90, 'require_fired': ['sched.asm_order'],
-                    'require_probes': ['twin.compared', 'clones.same_type'],
+                    'require_probes': ['twin.compared', 'clones.same_type',
+                                       'split.compared'],
                     'min_evaluated': 40}
         return {'runs': 12000, 'wall_s': 1000, 'per_run_timeout': 600,
                 'shrink_s': 300, 'require_fired': ['sched.asm_order',
@@ -235,6 +236,39 @@ class C06(Prop):
                         break
                 if res['violations']:
                     break
+        # (v) type-split twin: the same world with one private copy of the
+        # type definition per assembly - clones of a shared definition must
+        # behave exactly like assemblies built from their own definition
+        if not res['violations'] and len(set(names)) < len(names):
+            s5 = copy.deepcopy(spec)
+            types = {t['name']: t for t in spec['types']}
+            new_types = []
+            for k, p in enumerate(s5['positions']):
+                if not p:
+                    continue
+                t = copy.deepcopy(types[p['type']])
+                t['name'] = f'{p["type"]}x{k}'
+                p['type'] = t['name']
+                new_types.append(t)
+            s5['types'] = new_types
+            with sim.scratch_dir() as d:
+                e5 = execute(s5, sim.Plan(), d)
+            res['executions'] += 1
+            if e5.status != 'ok':
+                res['probes']['split.' + e5.reason.split(':')[0]] = 1
+            elif not (np.array_equal(e5.r.z, r0.z)
+                      and len(e5.S.state_log) == len(S0.state_log)):
+                res['probes']['split.mesh_mismatch'] = 1
+            else:
+                res['probes']['split.compared'] = 1
+                diff = _final_compare('split', S0.state_log, e5.S.state_log)
+                if diff is not None:
+                    t, k = diff
+                    who = 'gap' if k == n else \
+                        f'asm{ids[k] if 0 <= k < n else k}'
+                    report('split.bitwise', f'tick {t} {who}',
+                           'state differs when every assembly gets a private '
+                           'copy of its type definition', ['type_split'])
         res['sched_digest'] = rng.h64(*sched_sigs, plan.get('assign_order')) \
             if n >= 2 else None
         res['hist_digest'] = hist[0]
